@@ -66,9 +66,9 @@ def run(ctx):
     ctx.analysed["bodies_reachable"] = len(reach)
     ctx.floor("reachability", len(reach), 300, "bodies reachable from compile/search/conversion entry points")
     st = State(ctx, lib, cg, reach)
-    st.panic_sites()
-    st.loops()
-    st.recursion()
+    ctx.attempt("panic_sites", st.panic_sites)
+    ctx.attempt("loops", st.loops)
+    ctx.attempt("recursion", st.recursion)
 
 
 class State:
@@ -132,7 +132,10 @@ class State:
                 key = f"{d}:{kind}#{ordinal[kind]}"
                 n += 1
                 per_kind[kind] = per_kind.get(kind, 0) + 1
-                ok, why = self.discharge(b, blk, t, site)
+                try:
+                    ok, why = self.discharge(b, blk, t, site)
+                except Exception as e:  # noqa: BLE001 — undecided site: not discharged
+                    ok, why = False, f"no proof rule applies (rule evaluation failed on this shape: {type(e).__name__}: {e})"
                 ctx.check(ok, "panic-site", key, (f"{kind} in {d} — " + why), t["span"]["s"])
         ctx.analysed["panic_sites"] = n
         ctx.analysed["panic_sites_by_kind"] = per_kind
@@ -242,7 +245,7 @@ class State:
             if rv["k"] == "use" and rv["op"].get("k") == "const" and rv["op"].get("int") == 0:
                 continue
             # move (_t.0) with _t = AddWithOverflow(copy local, const 1)
-            if rv["k"] == "use" and rv["op"].get("k") in ("copy", "move") and rv["op"]["p"] and rv["op"]["p"][0].get("f") == 0:
+            if rv["k"] == "use" and rv["op"].get("k") in ("copy", "move") and rv["op"]["p"] and isinstance(rv["op"]["p"][0], dict) and rv["op"]["p"][0].get("f") == 0:
                 tl = rv["op"]["l"]
                 tw = [x for x in b.assigns_to(tl) if x[1] != "term"]
                 if len(tw) != 1 or tw[0][2]["k"] != "binop" or tw[0][2]["op"] != "AddWithOverflow":
@@ -369,7 +372,7 @@ class State:
                 return None
             if rv["k"] == "use" and rv["op"].get("k") == "const" and rv["op"].get("int") == 0:
                 continue
-            if rv["k"] == "use" and rv["op"].get("k") in ("copy", "move") and rv["op"]["p"] and rv["op"]["p"][0].get("f") == 0:
+            if rv["k"] == "use" and rv["op"].get("k") in ("copy", "move") and rv["op"]["p"] and isinstance(rv["op"]["p"][0], dict) and rv["op"]["p"][0].get("f") == 0:
                 tw = [x for x in b.assigns_to(rv["op"]["l"]) if x[1] != "term"]
                 if len(tw) == 1 and tw[0][2]["k"] == "binop" and tw[0][2]["op"] == "AddWithOverflow" and \
                         self.is_copy_of(b, tw[0][2]["a"], loc) and tw[0][2]["b"].get("int") == 1:
@@ -440,6 +443,22 @@ class State:
                     e = (sb, tt) if neg else (sb, ft)
                     if edge_dominates(b, e, site):
                         return True
+                # len(base) compared with a constant
+                if cond[0] == "bin" and cond[1] in ("Lt", "Le", "Gt", "Ge", "Eq", "Ne"):
+                    lhs, rhs, op = cond[2], cond[3], cond[1]
+                    if rhs[0] == "call" and rhs[1].endswith("::len"):
+                        lhs, rhs = rhs, lhs
+                        op = {"Lt": "Gt", "Le": "Ge", "Gt": "Lt", "Ge": "Le", "Eq": "Eq", "Ne": "Ne"}[op]
+                    if lhs[0] == "call" and lhs[1].endswith("::len") and set(lhs[2][0]) == set(base_terms) and rhs[0] == "const" and isinstance(rhs[1], int):
+                        k = rhs[1]
+                        # edge on which len >= 1 is implied
+                        nonempty_true = (op == "Gt" and k >= 0) or (op == "Ge" and k >= 1) or (op == "Ne" and k == 0) or (op == "Eq" and k >= 1)
+                        nonempty_false = (op == "Lt" and k >= 1) or (op == "Le" and k >= 0) or (op == "Eq" and k == 0)
+                        t_edge, f_edge = ((sb, ft), (sb, tt)) if neg else ((sb, tt), (sb, ft))
+                        if nonempty_true and edge_dominates(b, t_edge, site):
+                            return True
+                        if nonempty_false and edge_dominates(b, f_edge, site):
+                            return True
         return False
 
     def p_index_call(self, b, blk, t):
@@ -569,6 +588,10 @@ class State:
 
     def p_deny_const(self, b, blk, t):
         c = t["callee"]
+        if c.endswith("::drain") and len(t["args"]) > 1:
+            r = self.o(b).of_operand(t["args"][1])
+            if r and all(x[0] == "agg" and x[1] == "std::ops::RangeFull::RangeFull" for x in r):
+                return "P-full-range: drain(..) over the full range cannot be out of bounds"
         if c.endswith("::is_digit") or c.endswith("::to_digit"):
             r = t["args"][1].get("int") if len(t["args"]) > 1 else None
             if r is not None and 2 <= r <= 36:
@@ -691,7 +714,10 @@ class State:
             for ci, cyc in enumerate(cfg_cycles(b)):
                 n += 1
                 key = f"{d}#loop{ci}"
-                ok, why = self.loop_progress(b, cyc, consumes)
+                try:
+                    ok, why = self.loop_progress(b, cyc, consumes)
+                except Exception as e:  # noqa: BLE001
+                    ok, why = False, f"progress could not be established ({type(e).__name__}: {e})"
                 ctx.check(ok, "loop-progress", key, f"loop in {d} ({len(cyc)} blocks): {why}", b.span)
         ctx.floor("loop-progress", n, 24, "CFG cycles in reachable code")
         self.eof_terminates(consumes)
@@ -863,7 +889,8 @@ class State:
         if all(re.search(r"functions::ArgumentType", m) for m in ms):
             return "bounded", f"scc:argument-type:{members[0].split('::')[-1][:20]}", \
                 "recursion over the nesting of a signature's ArgumentType term, a constant of the program (not input)"
-        serde = all(re.search(r"serde::|variable::to_variable|variable::Variable as std::(clone|cmp|fmt)", m) for m in ms)
+        serde = all(re.search(r"serde::|variable::to_variable|variable::Variable as std::(clone|cmp|fmt)|as ToJmespath>::to_jmespath|"
+                              r"variable::Variable as std::convert::TryFrom<|variable::convert_map", m) for m in ms)
         if serde:
             return "bounded", f"scc:data-depth:{members[0][:60]}", \
                 "structural recursion over the nesting of a value; JSON documents are bounded by serde_json's recursion limit (assumption)"
